@@ -73,8 +73,11 @@ def partition(body, ty_range):
             op = cond["op"]
             a, b = cond["a"], cond["b"]
             ca, cb = _const_of(body, a), _const_of(body, b)
-            pa = ("cp" in a and a["cp"]["l"] == 1 and not a["cp"]["p"]) or ("mv" in a and a["mv"]["l"] == 1)
-            pb = ("cp" in b and b["cp"]["l"] == 1 and not b["cp"]["p"]) or ("mv" in b and b["mv"]["l"] == 1)
+            def is_param(o):
+                # the parameter itself, `*self` for a by-reference receiver, or a copy of either
+                e = strip_refs(body.origin_operand(o))
+                return e == ("param", 1) or e == ("deref", ("param", 1))
+            pa, pb = is_param(a), is_param(b)
             if ca is not None and pb:
                 # const OP x  ==  x OP' const
                 op = {"Le": "Ge", "Lt": "Gt", "Ge": "Le", "Gt": "Lt", "Eq": "Eq", "Ne": "Ne"}.get(op)
@@ -142,7 +145,13 @@ def rule_digit_tables(ctx, rule="C14-digits"):
                 bb, t = calls[0]
                 m = re.match(r"^<(\w+) as repr::num_to_repr::DigitCount>::digit_count$", callee_name(t))
                 a = strip_refs(body.origin_operand(t["args"][0]))
-                if m and a[0] == "cast" and a[1] == "IntToInt" and strip_refs(a[2]) == ("param", 1) and body.term(bb)["dest"]["l"] == 0:
+                while a[0] in ("ref", "rawptr"):
+                    a = strip_refs(a[2])
+                if a[0] == "mem":
+                    ds0 = body.defs.get(a[1], [])
+                    if len(ds0) == 1 and ds0[0][1] != "term":
+                        a = strip_refs(body.origin_rvalue(ds0[0][2]))
+                if m and a[0] == "cast" and a[1] == "IntToInt" and strip_refs(a[2]) in (("param", 1), ("deref", ("param", 1))) and body.term(bb)["dest"]["l"] == 0:
                     tgt = m.group(1)
                     trng = INT_RANGE.get(tgt)
                     ok = trng is not None and trng[0] <= rng[0] and rng[1] <= trng[1]
@@ -329,7 +338,7 @@ def _unrolled_writer(ctx, rule, key, b, ty):
     F = ctx.F
     rng = int_range(ty, F.ptr_bits)
     # digit_count(self) feeds with_capacity, the initial cursor and set_len
-    dc = [bb for bb, t in b.calls() if callee_name(t) == "<%s as repr::num_to_repr::DigitCount>::digit_count" % ty and strip_refs(b.origin_operand(t["args"][0])) == ("param", 1)]
+    dc = [bb for bb, t in b.calls() if callee_name(t) == "<%s as repr::num_to_repr::DigitCount>::digit_count" % ty and describe(b, b.origin_operand(t["args"][0])) in ("p1", "&p1")]
     ctx.ob(rule, key, "digit_count(self)", len(dc) == 1, how="one digit_count(self) call", detail="expected exactly one DigitCount::digit_count(self) call, found %d" % len(dc))
     if len(dc) != 1:
         return
